@@ -319,7 +319,22 @@ def run_case(case, ctx):
                     r = pyhf.infer.mle.fit(data, model, list(init), bounds, list(fixed), **kw)
             except pyhf.exceptions.FailedMinimization:
                 if fam is not None or case["family"] == "B":
-                    ctx.fail(f"{sig}/FailedMinimization_on_closed_form_family/{case['family']}/{tag}")
+                    opt_pt = None
+                    if case["family"] == "B" and not is_fp:
+                        opt_pt = [min(max((ni - bi) / si, 0.0), 10.0) for si, bi, ni in zip(case["s"], case["b"], case["data"])]
+                    elif fam is not None:
+                        pt, _ = fam.conditional(mu, case["data"]) if is_fp else fam.unconditional(case["data"])
+                        opt_pt = list(pt) if pt is not None else None
+                    near = opt_pt is not None and len(opt_pt) == cfg.npars and any(
+                        min(opt_pt[i] - bounds[i][0], bounds[i][1] - opt_pt[i]) <= 1e-2 * (bounds[i][1] - bounds[i][0])
+                        for i in range(cfg.npars) if not (fixed[i] or (is_fp and i == pi)))
+                    if case["optimizer"] == "minuit" and near:
+                        # MIGRAD/HESSE declare the minimum invalid (EDM above 10 x goal) when the optimum sits next to
+                        # a parameter limit: same root cause as the stuck-near-limit class, honest failure
+                        ctx.fail("C05/optimizer_limitation/minuit_fails_with_optimum_near_parameter_limit",
+                                 optimum=opt_pt, config=tag, family=case["family"])
+                    else:
+                        ctx.fail(f"{sig}/FailedMinimization_on_closed_form_family/{case['family']}/{tag}")
                 else:
                     ctx.label("FailedMinimization")
                 continue
